@@ -55,14 +55,17 @@ struct Interp {
           for (;;) { size_t hit = std::string::npos; for (size_t i = pos; i + pl <= body.size(); i++) if (!strncasecmp(body.data() + i, pat, pl)) { hit = i; break; }
                      if (hit == std::string::npos) break; if (first == std::string::npos) first = hit; else body.replace(hit + 9, 5, "nosuc"); pos = hit + pl; }
           if (first != std::string::npos) { self_include = true; ctx.label("self-include"); }
-          // an %include whose argument is COMPUTED (%dirscan(.) lists f.cfg itself; a $VAR or a backquote could name it) is a
-          // self-include in disguise: with a literal one already present it would bring the same 2^n blow-up back
-          if (first != std::string::npos) {
+          // an %include whose argument is COMPUTED (%dirscan(.) lists f.cfg itself; a $VAR, a backquote or ~ could name it) is a
+          // self-include in disguise: more than one self-include of either kind brings the 2^n blow-up back, so only the first
+          // self-include-capable line of the file is kept
+          {
+              bool have = first != std::string::npos;
               for (size_t i = 0; i + 8 <= body.size(); i++) {
                   if (strncasecmp(body.data() + i, "%include", 8) != 0 || i == first) continue;
                   size_t e = body.find('\n', i);
                   std::string arg = body.substr(i + 8, (e == std::string::npos ? body.size() : e) - i - 8);
                   if (arg.find('%') != std::string::npos || arg.find('$') != std::string::npos || arg.find('`') != std::string::npos || arg.find('~') != std::string::npos) {
+                      if (!have) { have = true; self_include = true; ctx.label("computed-include"); continue; }
                       body.replace(i, 8, "%incl_de"); ctx.label("computed-include-neutralised-next-to-a-self-include");
                   }
               }
